@@ -102,6 +102,42 @@ def check_message(ctx, t, a, ti, tf, hexcheck=True):
         ctx.fail('decode raised', key, case, f'{type(exc).__name__}: {exc}')
 
 
+class UserMessage(Message):
+    """A plain application subclass."""
+
+
+def check_message_classes(ctx, t, a, ti, tf):
+    """The codec methods are inherited: the same case on the frozen class and on a user's subclass - built directly and
+    decoded by the class's own from_bytes / from_hex, with an explicit time."""
+    from mido.frozen import FrozenMessage, freeze_message, thaw_message
+    ref = midi1.encode(t, a)
+    for cls in (FrozenMessage, UserMessage):
+        case = lambda: {'kind': 'msg-class', 'class': cls.__name__, 'type': t, 'attrs': a, 'ti': ti, 'tf': tf}  # noqa: E731
+        key = f'{cls.__name__}:{t}'
+        try:
+            m = cls(t, time=ti, **a)
+            b = m.bytes()
+            ctx.check('enc==ref', b == ref and list(m.bin()) == ref and len(m) == len(ref), key, case, lambda: b[:40])
+            d1 = cls.from_bytes(b, time=ti)
+            d2 = cls.from_bytes(m.bin(), time=tf)
+            d3 = cls.from_hex(m.hex(), time=ti)
+            d0 = cls.from_bytes(bytes(ref))
+            ctx.check('from_bytes==m', d1 == m and isinstance(d1, cls) and _eq_typed(d1, t, a, ti) and d0 == m.copy(time=0)
+                      and isinstance(d0, cls), key, case, lambda: repr(d1)[:200])
+            ctx.check('time passthrough', _eq_typed(d2, t, a, tf) and d2 == m.copy(time=tf), key, case, lambda: repr(d2)[:200])
+            ctx.check('from_hex==m', d3 == m and isinstance(d3, cls), key, case, lambda: repr(d3)[:200])
+            if cls is FrozenMessage:
+                # through freeze and thaw: still the same message, still the same bytes
+                th = thaw_message(m)
+                fz = freeze_message(Message(t, time=ti, **a))
+                d4 = Message.from_bytes(th.bytes(), time=ti)
+                ctx.check('from_bytes==m', th.bytes() == ref and fz.bytes() == ref and d4 == th and _eq_typed(d4, t, a, ti)
+                          and _eq_typed(th, t, a, ti) and type(th) is Message, key + ':thawed', case,
+                          lambda: repr(th)[:200])
+        except Exception as exc:
+            ctx.fail('decode raised', key, case, f'{type(exc).__name__}: {exc}')
+
+
 def check_hex_variants(ctx, t, a, rng):
     m = Message(t, **a)
     ref = midi1.encode(t, a)
@@ -222,6 +258,8 @@ def phase_a(ctx):
             continue
         check_message(ctx, t, a, it[i % len(it)], ft[i % len(ft)],
                       hexcheck=True)
+        if i % 48 == sh % 48:
+            check_message_classes(ctx, t, a, it[i % len(it)], ft[i % len(ft)])
         per_type[t] = per_type.get(t, 0) + 1
         if i % 9973 == sh:
             ctx.put_sample({'type': t, **a, 'bytes': midi1.encode(t, a)})
@@ -257,6 +295,8 @@ def phase_b(ctx):
         n = ctx.rng.choice((0, 1, 2, 3, 4, 5, 7, 10, 16, 33, 40, 200))
         data = tuple(ctx.rng.randrange(128) for _ in range(n))
         check_message(ctx, 'sysex', {'data': data}, j, j / 7.0)
+        if j % 4 == 0:
+            check_message_classes(ctx, 'sysex', {'data': data}, j, j / 7.0)
         ctx.nontrivial(('sysexr', data))
         k += 1
         if j < 2:
@@ -479,6 +519,8 @@ def replay(ctx, case):
         a['data'] = tuple(a['data'])
     if k == 'msg':
         check_message(ctx, case['type'], a, case['ti'], case['tf'])
+    elif k == 'msg-class':
+        check_message_classes(ctx, case['type'], a, case['ti'], case['tf'])
     elif k == 'hexvar':
         check_hex_variants(ctx, case['type'], a, ctx.rng)
     elif k == 'spelling':
